@@ -119,7 +119,7 @@ def semantic_faults(cfg, rng):
 
 def gen_case(ctx, k, valid):
     rng = ctx.sub_rng('c13', k)
-    base = cfggen.gen_config(rng, nboards=rng.randrange(1, 4))
+    base = cfggen.gen_config(rng, nboards=rng.randrange(1, 4), wide_dcc=(k % 3 == 0), odd_ids=(k % 2 == 0))
     texts = [cfggen.board_yaml(base), cfggen.track_yaml(base), cfggen.train_yaml(base)]
     classes = []
     if k % 4 == 3:
